@@ -25,7 +25,7 @@ func genC04Admin(seed uint64, r *rng.Rand) *Plan {
 		var ops []Op
 		n := g.R.Range(2, 6)
 		for i := 0; i < n; i++ {
-			ops = append(ops, Op{Kind: []string{"status", "tables", "status"}[g.R.Intn(3)]})
+			ops = append(ops, adminOp(g))
 			if g.R.Chance(0.3) {
 				ops = append(ops, Op{Kind: "sleep", MS: g.R.Range(1, 2000)})
 			}
@@ -35,7 +35,14 @@ func genC04Admin(seed uint64, r *rng.Rand) *Plan {
 	nf := g.R.Range(1, 4)
 	for i := 0; i < nf; i++ {
 		at := g.R.Range(0, 8)
-		switch g.R.Intn(6) {
+		switch g.R.Intn(8) {
+		case 6:
+			// an application exception: returned to the caller, not retried
+			p.Faults = append(p.Faults, &Fault{On: "exec", N: at, Act: "rule", Rule: &hb.Rule{Class: hb.AppClasses[g.R.Intn(len(hb.AppClasses)-1)], Msg: "scripted",
+				Count: g.R.Range(1, 2), Server: -1, Kind: "Master"}})
+		case 7:
+			// every third procedure finishes with an exception
+			p.Faults = append(p.Faults, &Fault{On: "exec", N: 0, Act: "procfail", Rule: &hb.Rule{Class: "org.apache.hadoop.hbase.TableExistsException"}})
 		case 0:
 			p.Faults = append(p.Faults, &Fault{On: "exec", N: at, Act: "mastermove", To: g.R.Intn(p.Layout.Servers)})
 		case 1:
@@ -55,6 +62,23 @@ func genC04Admin(seed uint64, r *rng.Rand) *Plan {
 	return p
 }
 
+// adminOp draws one administrative call.
+func adminOp(g *Gen) Op {
+	tables := []string{"t", "ns:adm", "x"}
+	switch k := []string{"status", "tables", "status", "create", "delete", "enable", "disable", "balancer", "moveregion", "snapshot", "delsnapshot", "listsnapshots", "restore"}[g.R.Intn(13)]; k {
+	case "create", "delete", "enable", "disable":
+		return Op{Kind: k, Table: tables[g.R.Intn(len(tables))]}
+	case "balancer":
+		return Op{Kind: k, Exists: g.R.Chance(0.5)}
+	case "moveregion":
+		return Op{Kind: k, Key: []byte(fmt.Sprintf("%032x", g.R.Intn(1<<30)))}
+	case "snapshot", "delsnapshot", "restore":
+		return Op{Kind: k, Table: tables[g.R.Intn(len(tables))], Key: []byte(fmt.Sprintf("snap%d", g.R.Intn(3)))}
+	default:
+		return Op{Kind: k}
+	}
+}
+
 func init() {
 	register(&Profile{Name: "c04admin", Prop: "C04", Generate: genC04Admin, After: stabilise,
 		Check: func(w *World, reason string) []Violation {
@@ -68,13 +92,43 @@ func init() {
 					seqs[fmt.Sprintf("master-exec-%d", e.Seq)] = true
 				}
 			}
+			// exceptions the master sent that are not in a retryable class, and
+			// procedures that finished with an exception
+			appSent := map[string]int{}
+			for _, e := range w.Env.C.Execs {
+				if e.Kind == "Master" && e.Err != "" && !retryClass(e.Err) {
+					appSent[e.Err]++
+				}
+			}
+			procFailed := 0
+			for _, pr := range w.Env.C.Procs {
+				if pr.Fail != "" && pr.Seen > pr.Polls {
+					procFailed++
+				}
+			}
+			appGot, procGot := map[string]int{}, 0
 			for _, t := range w.Recs {
 				for _, r := range t {
-					if !r.Done || (r.Op.Kind != "status" && r.Op.Kind != "tables") {
+					if !r.Done || r.Op.Kind == "sleep" {
 						continue
 					}
 					if r.Slot.Err != nil {
-						vs = append(vs, w.viol("C04", "admin-error-surfaced", "task %d op %d (%s) returned %q although the master is reachable after stabilisation", r.Task, r.Idx, r.Op.Kind, firstLine(r.Slot.ErrStr)))
+						msg := firstLine(r.Slot.ErrStr)
+						matched := false
+						for cls := range appSent {
+							if strings.Contains(msg, cls) {
+								appGot[cls]++
+								matched = true
+								break
+							}
+						}
+						if !matched && w.Env.C.ProcFail != "" && strings.HasPrefix(msg, "procedure exception: "+w.Env.C.ProcFail+": procedure ") {
+							procGot++
+							matched = true
+						}
+						if !matched {
+							vs = append(vs, w.viol("C04", "admin-error-surfaced", "task %d op %d (%s) returned %q although the master is reachable after stabilisation and sent no such exception", r.Task, r.Idx, r.Op.Kind, msg))
+						}
 						continue
 					}
 					if r.Op.Kind == "status" {
@@ -86,6 +140,31 @@ func init() {
 							vs = append(vs, w.viol("C04", "admin-attribution", "ClusterStatus returned %q, which no successful execution on the active master produced", got))
 						}
 					}
+				}
+			}
+			calm := true // no fault that can lose a response on its way
+			for _, f := range w.Plan.Faults {
+				if f.Act != "rule" && f.Act != "procfail" && f.Act != "zkfail" {
+					calm = false
+				}
+				if f.Act == "rule" {
+					for _, fc := range hb.FatalClasses {
+						if f.Rule.Class == fc {
+							calm = false // the connection dies with whatever else it carried
+						}
+					}
+				}
+			}
+			if w.Env.StopErr == nil && len(vs) == 0 && w.AllDone() && calm {
+				// an exception outside the retryable classes ends its call: as many
+				// callers got it as the master sent it
+				for cls, n := range appSent {
+					if appGot[cls] != n {
+						vs = append(vs, w.viol("C04", "admin-app-error-retried", "the master answered %d request(s) with %s, %d call(s) returned it: the others were retried or lost", n, cls, appGot[cls]))
+					}
+				}
+				if procGot != procFailed {
+					vs = append(vs, w.viol("C04", "admin-attribution", "%d call(s) reported a failed procedure, %d procedure(s) were reported as finished with an exception by the master", procGot, procFailed))
 				}
 			}
 			return vs
